@@ -17,6 +17,11 @@ PINF = ("const", float("inf"))
 NINF = ("const", float("-inf"))
 
 
+
+class NarrowGrid(AnalysisError):
+    """a space whose listed vectors are wrong for wide dimensions: decided, not an analysis failure"""
+
+
 class Domain:
     """Lower bounds of symbols (from the validators)."""
 
@@ -454,6 +459,19 @@ class SegEval:
     # ----------------------------------------------------------------- spaces
     def columns(self, sp) -> Vec:
         """Column ranges of a space term ([n, dim] array of all listed vectors)."""
+        from .terms import NARROW_INT_DTYPES, indices_space
+        grid = indices_space(sp)
+        if grid is not None and grid[2] in NARROW_INT_DTYPES:
+            raise NarrowGrid(f"the grid offsets of the space are enumerated in {grid[2]} (np.indices(.., dtype={grid[2]})): they run up to the width of each "
+                             f"dimension, which nothing bounds by the range of {grid[2]}; a wider dimension wraps around and the space lists repeated vectors, "
+                             "so most successors are not in it")
+        if grid is not None and grid[2] not in NARROW_INT_DTYPES:
+            # np.indices(D).reshape(len(D), -1).T + M: column i takes M[i] .. M[i] + D[i] - 1
+            d_, m_, _dt = grid
+            ix = ("sym", "dim#grid")
+            lo_v = self._per_dim(("elem", m_, (ix,)) if not is_num(m_) else m_, ix, None)
+            hi_v = self._per_dim(T_sub(T_add(("elem", m_, (ix,)) if not is_num(m_) else m_, ("elem", d_, (ix,))), ONE), ix, None)
+            return self.vzip(lo_v, hi_v, lambda x, y: Iv(x.lo, y.hi))
         k = sp[0]
         if k == "app":
             name, args = sp[1], sp[2]
